@@ -211,11 +211,11 @@ func scripts(probes []string) [][]IOp {
 }
 
 type driveStats struct {
-	calls     int
-	rangePos  int // positions with a range key
-	bothPos   int // positions with point and range key
-	clipped   int // positions whose reported bounds were clipped by iterator or prefix bounds
-	midSeek   int // positions synthesised by a seek into the middle of a span
+	calls    int
+	rangePos int // positions with a range key
+	bothPos  int // positions with point and range key
+	clipped  int // positions whose reported bounds were clipped by iterator or prefix bounds
+	midSeek  int // positions synthesised by a seek into the middle of a span
 }
 
 // driveIter runs the two full scans and all scripts on one real iterator next to the model.
